@@ -721,7 +721,6 @@ def minimise(case, kind, what, deadline):
         case = c2
         changed = True
       i -= 1
-    # second move: replace a compound header on the path by its body is not attempted (kept simple)
   failure, _ = run_case(case)
   return case, failure
 
